@@ -7,7 +7,7 @@
 (* the observed wrong answer is the one the deviation predicts.  Anything  *)
 (* else is a violation.  A deviation that is not open matches nothing.     *)
 (***************************************************************************)
-EXTENDS Chars, Dpkg, Rpm, Alpm, MavenCV
+EXTENDS Chars, Dpkg, Rpm, Alpm, MavenCV, Pep440
 
 \* mm is a mismatch record; the fields used depend on the deviation.
 Dev(d, mm) ==
@@ -25,6 +25,12 @@ Dev(d, mm) ==
     \* outside the conventional shapes takes part and the observed sign is ComparableVersion's.
     [] d = "KF-maven-01" -> mm.prop = "C01" /\ mm.eco = "maven" /\ mm.why = "rank-irregular"
                            /\ mm.model = mm.got
+    \* pypi: Compare ignores the local version label (1.0+abc = 1.0); pinned by the repository's VERS
+    \* tests ("!=1.0.0+local1" excludes 1.0.0+local2).  Known iff a local label takes part and the
+    \* observed sign is the one PEP 440 gives with local labels ignored.
+    [] d = "KF-pypi-01" -> mm.prop = "C09" /\ mm.why = "ref"
+                           /\ (PHasLocal(S2C(mm.a)) \/ PHasLocal(S2C(mm.b)))
+                           /\ PepImplCmp(S2C(mm.a), S2C(mm.b)) = mm.got
     [] d = "KF-rpm-01" -> mm.prop = "C11" /\ mm.why = "ref" /\ RpmImplCmp(S2C(mm.a), S2C(mm.b)) = mm.got
     [] OTHER -> FALSE
 
